@@ -18,16 +18,6 @@ M = [
 				// Nothing. Move on to the next line.
 			} else if b == '\\n' && len(result.Sequence) > 0 && len(result.Sequence)%3 == 0 {
 				break loop'''),
- ("C01-reader-loses-byte-after-cr", "formats/fasta/fasta.go",
-  '''		case stateSequence:
-			if b == '\\n' || b == '\\r' {
-				state = stateNewLine''',
-  '''		case stateSequence:
-			if b == '\\r' {
-				r.r.ReadByte() // skip the LF of CRLF
-				state = stateNewLine
-			} else if b == '\\n' {
-				state = stateNewLine'''),
  ("C02-drop-plus-check", "formats/fastq/fastq.go",
   '''	if !bytes.HasPrefix(plus, []byte("+")) {''',
   '''	if len(plus) > 1 && !bytes.HasPrefix(plus, []byte("+")) {'''),
@@ -60,11 +50,11 @@ M = [
 		if _, err := fmt.Fprintf(w, "\\t%v", b.ThickEnd); err != nil {''',
   '''	if b.N >= 7 {
 		if _, err := fmt.Fprintf(w, "\\t%v", b.ThickEnd); err != nil {'''),
- ("C04-rgb-hex", "formats/bed/bed.go",
+ ("C04-rgb-signed-blue", "formats/bed/bed.go",
   '''		if _, err := fmt.Fprintf(w, "\\t%v,%v,%v",
 			b.ItemRGB[0], b.ItemRGB[1], b.ItemRGB[2]); err != nil {''',
-  '''		if _, err := fmt.Fprintf(w, "\\t%v,%v,%#v",
-			b.ItemRGB[0], b.ItemRGB[1], b.ItemRGB[2]); err != nil {'''),
+  '''		if _, err := fmt.Fprintf(w, "\\t%v,%v,%v",
+			b.ItemRGB[0], b.ItemRGB[1], int8(b.ItemRGB[2])); err != nil {'''),
  ("C04-write-emits-before-refusing", "formats/bed/bed.go",
   '''	if b.N < 3 || b.N > 12 {
 		return fmt.Errorf("bad number of fields: %v, want 3-12", b.N)
@@ -199,10 +189,6 @@ M = [
 			if err != nil && len(line) > 11 {
 				break
 			}'''),
- ("C12-canonical-compare", "sequtil/sequtil.go",
-  '''			if bytes.Compare(kmer, kmerRC) == 1 {''', '''			if bytes.Compare(kmer, kmerRC) >= 0 && k > 5 {
-				kmer = kmerRC
-			} else if bytes.Compare(kmer, kmerRC) == 1 {'''),
  ("C12-n-complement-case", "sequtil/sequtil.go",
   '''	complementBytes['n'], complementBytes['N'] = 'n', 'N\'''', '''	complementBytes['n'], complementBytes['N'] = 'N', 'N\''''),
  ("C13-dst-offset-slip", "sequtil/sequtil.go",
@@ -247,10 +233,10 @@ M = [
   '''		return idx.idx[j].start > i''', '''		return idx.idx[j].start >= i'''),
  ("C16-at-cache", "regions/regions.go", None, None),
  ("C17-missing-toupper", "mash/mash.go",
-  '''sequtil.CanonicalSubsequences(bytes.ToUpper(seq), k)''', '''sequtil.CanonicalSubsequences(seq, k)'''),
+  '''sequtil.CanonicalSubsequences(bytes.ToUpper(seq), k)''', '''sequtil.CanonicalSubsequences(bytes.TrimSpace(seq), k)'''),
  ("C17-missing-sort", "mash/mash.go",
   '''	mh.Sort()
-}''', '''	if len(seqs) > 0 {
+}''', '''	if len(seqs) != 1 {
 		mh.Sort()
 	}
 }'''),
@@ -301,8 +287,6 @@ M = [
   '''			if err != nil {
 				return m, fmt.Errorf("could not parse score: %v", err)
 			}'''),
- ("C20-symmetrical-misses-conflict", "align/align.go",
-  '''			if v2, ok := m[flip]; ok && v2 != v {''', '''			if v2, ok := m[flip]; ok && v2 != v && k[0] < k[1] {'''),
  ("C20-gostring-rounds", "align/align.go",
   '''		fmt.Fprintf(buf, "{%s,%s}:%v,\\n",''', '''		fmt.Fprintf(buf, "{%s,%s}:%.6g,\\n",'''),
 ]
@@ -324,7 +308,7 @@ for name, path, old, new in M:
         # only change the clearing branch if there is one
         k = body.find('else')
         if k > 0:
-            newbody = body[:k] + body[k:].replace('FlagDuplicate', 'FlagDuplicate|FlagSupplementary', 1)
+            newbody = body[:k] + body[k:].replace('^FlagDuplicate', '^(FlagDuplicate | FlagSupplementary)', 1)
         gen(name, path, None, None, src.replace(body, newbody))
         continue
     if name == "C16-at-cache":
